@@ -249,13 +249,7 @@ async fn one_case(report: &Report, seed: u64, idx: u64, corrupt: bool) -> Option
     let mut indices_seen = 0u64;
     if findings.is_empty() {
         let reader = Actor::new(out.world.new_actor(0));
-        let kinds: Vec<&str> = {
-            let mut k: Vec<&str> = out.spec.pre_ops.iter().map(|o| o.kind()).chain(out.results.iter().filter(|r| r.result.is_ok()).map(|r| r.op.kind())).collect();
-            k.sort();
-            k.dedup();
-            k
-        };
-        let ctx = kinds.join("+");
+        let cause = history_cause(&out);
         let mut versions: Vec<u64> = sc.commit_order.iter().map(|x| x.0).collect();
         if versions.is_empty() {
             versions.push(sc.final_version);
@@ -269,7 +263,7 @@ async fn one_case(report: &Report, seed: u64, idx: u64, corrupt: bool) -> Option
                 }
             };
             let is_last = v == sc.final_version;
-            match check_index_coverage(&ds, &ctx, corrupt && is_last).await {
+            match check_index_coverage(&ds, &cause, corrupt && is_last).await {
                 Ok((f, st)) => {
                     report.count("index_queries_compared", st.queries);
                     report.count("index_queries_using_index", st.queries_using_index);
